@@ -12,6 +12,7 @@ modelled (the model is exact); see harness/props/c04.py for the tolerance rule o
 import FairModel.Model.Proto
 import FairModel.Generated.ThresholdTables
 import FairModel.Generated.TradeoffSrc
+import FairModel.Generated.ThresholderSrc
 
 namespace Threshold
 open ThresholdGen
@@ -28,18 +29,19 @@ inductive Thr where
   | ninf : Thr
 deriving Repr, DecidableEq
 
-/-- `s > thr` -/
+/-- `s > thr`: for a finite threshold the comparison LIFTED from `ThresholdOperation.__call__` (operator ">");
+    the ±inf cases are IEEE comparisons with an infinity -/
 def Thr.below (thr : Thr) (s : Rat) : Bool :=
   match thr with
   | .pinf => false
-  | .fin t => decide (t < s)
+  | .fin t => ThresholderSrc.opGt s t
   | .ninf => true
 
-/-- `s < thr` -/
+/-- `s < thr` (operator "<", lifted) -/
 def Thr.above (thr : Thr) (s : Rat) : Bool :=
   match thr with
   | .pinf => true
-  | .fin t => decide (s < t)
+  | .fin t => ThresholderSrc.opLt s t
   | .ninf => false
 
 /-- `ThresholdOperation(operator, threshold)`; `gt = true` is the operator ">" -/
@@ -309,12 +311,13 @@ def fitEO (flip : Bool) (obj : Metric) (N : Nat) (groups : List (List Row)) (for
 /-! ### `InterpolatedThresholder._pmf_predict` and expected confusion counts -/
 def ind (b : Bool) : Rat := if b then 1 else 0
 
-/-- probability of predicting 1 for a row with score `s` -/
+/-- probability of predicting 1 for a row with score `s`: the interpolation and the `p_ignore` mixing are the
+    expressions LIFTED from `InterpolatedThresholder._pmf_predict` (`Generated/ThresholderSrc.lean`) -/
 def ruleProb (r : Rule) (s : Rat) : Rat :=
-  let base := r.p0 * ind (r.op0.apply s) + r.p1 * ind (r.op1.apply s)
+  let base := ThresholderSrc.interp r.p0 (ind (r.op0.apply s)) r.p1 (ind (r.op1.apply s))
   match r.ign with
   | none => base
-  | some (pi, c) => pi * c + (1 - pi) * base
+  | some (pi, c) => ThresholderSrc.withIgnore pi c base
 
 def sumBy (f : Row → Rat) (rows : List Row) : Rat := (rows.map f).sum
 
